@@ -435,7 +435,7 @@ macro_rules! serde_roundtrip_harness {
     };
 }
 
-// Not claimed (C16 is listed not_applicable): only the two 64-bit harnesses finish (5 s each); bool, char and the
+// C16 is claimed narrowly (see MANIFEST): only the two 64-bit harnesses finish (5 s each); bool, char and the
 // narrower integers go through serde's range-check error paths (Display of `Unexpected`) and time out at 900 s.
 // @verif-block props=C16 tier=quick cap=900 group=serde doc=Value::from_serialize(x)_deserialised_back_into_the_same_type_yields_x_for_EVERY_value_of_the_listed_scalar_type,_directly_and_wrapped_in_Some
 #[cfg(feature = "deserialization")]
